@@ -39,6 +39,11 @@ Theorem c19_unsuccessful_response_never_advances : forall last s rs,
   k_next (k_step last s (KReturn false rs)) = k_next s /\
   k_step last s (KReturn true rs) = s.
 Proof. exact unsuccessful_response_never_advances. Qed.
+(* a chain that ended without being concluded and is set to repeat restarts from NOT_STARTED with the stage progress re-armed *)
+Theorem c19_restart_begins_the_first_stage_from_its_start : forall last s,
+  (k_cur s = SUCCEEDED \/ k_cur s = FAILED) -> k_done s = false ->
+  let s' := k_step last s (KOutcome true) in k_cur s' = NOT_STARTED /\ k_next s' = 1 /\ k_prog s' = 0.
+Proof. exact restart_rearms_first_stage. Qed.
 Example c19_example :
   run_case (3, 1, 4, 1, 3, false, [1; -1; 0; 1; 0], 30) = [4; 7; 11] /\
   choice [1 # 2; 0; 1 # 2]%Q (1 # 2)%Q = 2%nat /\ map snd (sort_kv [(2, 0%Q); (1, (1 # 2)%Q); (0, (1 # 2)%Q)]) = [1 # 2; 1 # 2; 0]%Q.
